@@ -529,7 +529,7 @@ func run(c *vh.Ctx) error {
 			break
 		}
 	}
-	nCases := c.N(260, 4000)
+	nCases := c.N(1000, 12000)
 	if c.Search {
 		nCases *= 3
 	}
